@@ -3,7 +3,7 @@ SPEC = {
     "level": "proof",
     "coq": {
         "props": "Props/C12.v",
-        "extract": ["Extract/ExtU32.v"],
+        "extract": ["Extract/ExtU32.v", "Extract/ExtTcb.v"],
         "theorems": [
             "C12_mod_lt_circular", "C12_mod_leq_circular", "C12_mod_leq_circular_neg",
             "C12_leq_is_lt_or_eq", "C12_geq_is_gt_or_eq", "C12_lt_asym", "C12_bounded_is_arc",
@@ -14,6 +14,11 @@ SPEC = {
     "stages": [
         {"name": "cmp_lockstep", "bin": "c12_cmp", "model": "u32", "n_quick": 40000, "n_thorough": 2000000,
          "shards": 4, "shards_thorough": 16},
+        # the same closed-system schedules run on the real Tcb with both ISNs shifted (random, and landing just below
+        # 2^32 / 2^31 so that the sequence space wraps during handshake or transfer); traces relative to the ISNs must
+        # be identical (oracle), and the unshifted run is lock-stepped against the TCB model
+        {"name": "tcb_isn_shift", "bin": "tcb_lockstep", "model": "tcb", "extra_args": "--shift",
+         "n_quick": 320, "n_thorough": 16000, "shards": 8, "shards_thorough": 16, "seed_salt": 12},
     ],
     "rule": "cases = calls of mod_lt/leq/gt/geq/bounded on pairs drawn from edge values, edge distances "
             "(0,1,2^31-1,2^31,2^31+1,2^32-1), +-35000 neighbourhoods and uniform u32; distinct = distinct case "
